@@ -18,7 +18,9 @@ variable {n : Nat} {T : BTree}
 /-! ### bounds -/
 
 theorem boundsInternal_eq (s : Nat → ℝ) (L : List (Nat × Nat × Nat)) :
-    boundsInternal n s L = fold3 n s (fun _ a b => if b < a then a else b) L (fun _ => 0) := rfl
+    boundsInternal n s L = fold3 n s (fun _ a b => if b < a then a else b) L (fun _ => 0) :=
+  foldl_vec (fun ih (tr : Nat × Nat × Nat) => upd ih (tr.1 - n) ((fun _ a b => if b < a then a else b) tr
+    (rd n s ih tr.2.1) (rd n s ih tr.2.2))) L (fun _ => 0)
 
 theorem bounds_eq_rd (s : Nat → ℝ) (L : List (Nat × Nat × Nat)) (i : Nat) :
     bounds n s L i = rd n s (boundsInternal n s L) i := rfl
@@ -128,7 +130,7 @@ variable (s x : Nat → ℝ)
 theorem ratioFwd_eq (b : Nat → ℝ) (L : List (Nat × Nat)) :
     ratioFwd n b L x
       = L.foldl (fun h a => upd h a.2 ((fun a v => b (n + a.2) + x a.2 * (v - b (n + a.2))) a (h a.1))) x :=
-  rfl
+  foldl_vec (fun h (a : Nat × Nat) => upd h a.2 (b (n + a.2) + x a.2 * (h a.1 - b (n + a.2)))) L x
 
 /-- every non-root internal node sits at `bound + ratio · (parent height − bound)` of the FINAL
 heights, and the root keeps the root-height parameter -/
@@ -156,6 +158,7 @@ theorem diffFwdAll_eq (L : List (Nat × Nat × Nat)) :
     diffFwdAll n mx s L x
       = fold3 0 s (fun tr a b => mx a b + x (tr.1 - n)) L (fun i => if i < n then s i else 0) := by
   unfold diffFwdAll fold3
+  rw [foldl_vec (fun H (tr : Nat × Nat × Nat) => upd H tr.1 (mx (H tr.2.1) (H tr.2.2) + x (tr.1 - n)))]
   apply List.foldl_ext
   intro H tr _
   simp [rd]
@@ -198,6 +201,9 @@ theorem diffInv_spec (hT : WF n T) (y : Nat → ℝ) :
     have := (hok.2 a ha).1
     have := (hok.2 b hb).1
     omega
+  unfold diffInv
+  rw [foldl_vec (fun X (tr : Nat × Nat × Nat) => upd X (tr.1 - n)
+    (nodeHeights n s y tr.1 - mx (nodeHeights n s y tr.2.1) (nodeHeights n s y tr.2.2)))]
   exact foldKey_spec (fun a : Nat × Nat × Nat => a.1 - n)
     (fun a => nodeHeights n s y a.1 - mx (nodeHeights n s y a.2.1) (nodeHeights n s y a.2.2))
     (T.post n) hkeys (fun _ => 0)
